@@ -649,7 +649,7 @@ func (c *Ctx) r163() {
 			continue
 		}
 		n++
-		wname := paramOfType(pk.TypesInfo, fd, "io.Writer").Name()
+		wname := c.P.NameOf(paramOfType(pk.TypesInfo, fd, "io.Writer"))
 		writes := func(y *flow.Node) bool {
 			a := y.Ast()
 			if a == nil || y.Kind != flow.KStmt {
